@@ -51,6 +51,23 @@ class NotText(Exception):
         return self.args[0]
 def unprintable(kind):
     raise kind(404)
+class Payload(Exception):
+    def __getattr__(self, name):
+        return self._payload[name]      # _payload is never set: looking up any missing attribute ends in RecursionError
+class BadCause(Exception):
+    @property
+    def __cause__(self):
+        raise KeyboardInterrupt()
+def call_api(kind):
+    raise kind('upstream said no')
+class Lazy:
+    """Attributes come from a mapping: a missing one is a KeyError, not an AttributeError."""
+    def __init__(self):
+        self._data = {'amount': 1}
+    def __getattr__(self, name):
+        return self._data[name]
+    def total(self):
+        return self.amount + self.missing_total
 class BadNum:
     def __float__(self):
         raise KeyboardInterrupt()
@@ -109,6 +126,8 @@ EXPRS = [
     # failures whose exception has no text, or none that can be taken; a value that cannot be converted
     ('unprintable(Unprintable)', 'failing'), ('unprintable(UnprintableBase)', 'failing'), ('unprintable(NotText)', 'failing'),
     ('next(iter([]))', 'failing'), ('BadNum()', 'hostile-value'),
+    # failures whose traceback cannot be printed: the log call that reports them runs code of the application
+    ('call_api(Payload)', 'failing'), ('call_api(BadCause)', 'failing'), ('Lazy().total()', 'failing'),
 ]
 
 
